@@ -314,3 +314,11 @@ Definition run_request (lay : layout) (entries : list (path * node)) (o : oracle
   : list (step * bool) * N * list (path * node) :=
   let '(c, out) := machine_run o (request_prog lay r) (start (init_fs entries)) in
   (c_tr c, out_code out, dump (c_st c)).
+
+(* executable check of the weak invariant on an explicit entry list (every entry's parent is a directory) *)
+Definition inv_check (entries : list (path * node)) : bool :=
+  match look (init_fs entries) [] with Some D => true | _ => false end &&
+  forallb (fun e => match fst e with
+                    | [] => true
+                    | _ => match look (init_fs entries) (parent (fst e)) with Some D => true | _ => false end
+                    end) entries.
